@@ -72,6 +72,19 @@ CHECKS["C14"] = dict(level="exploration", design="5/C14",
    text="80 000 calls in the quick tier: every builtin on every alphabet value directly and through a variable (result type and value printed), idempotence of conversions, arity 0/2/3 tables, int(string(i)) / string(i) / int(float(i)) for all 370 lattice integers, float round trips, print with all 781 format strings of <= 4 pieces over {{}, {, }, a, space} x 76 argument tuples and with a first argument of every type.",
    note="trusted: reference builtins in refint.rs; U11 (non-canonical number spellings, int of NaN/inf) not compared")
 
+CHECKS["C15"] = dict(level="exploration", design="5/C15",
+   technique="complete enumeration of boundary value sets through the public constructors/accessors (integer lattice, function descriptor boundary pairs, float bit patterns, strings, nested arrays) and the full 200 x 200 equality cross product, executed under both build profiles",
+   text="40 646 checks per build profile (release-like and debug-assertions/overflow-checks): round trip, type tag, immediacy and box alignment of every value, and == / != on all 40 000 ordered pairs of a fixed 200-value set (equal iff same type and content, NaN excepted, equal content at different addresses included, never a panic).",
+   note="trusted: the facade re-export of GC and the address accessor; array == array is outside the property")
+CHECKS["C16"] = dict(level="model_checking", design="5/C16",
+   technique="exhaustive preemption-bounded schedule exploration of two real evaluations on OS threads under a controlled baton scheduler (yield point before every VM instruction and between the phases of eval; every schedule with <= p preemptions run to completion, failing schedules replayed), exhaustive enumeration of evaluation histories against fresh-process outcomes, and item-by-item comparison of outcome tables between two builds of the interpreter",
+   text="Quick tier, per build profile: all 812 ordered histories of <= 2 programs of a 28-program colliding batch, every evaluation compared with the outcome of the same text alone in a fresh release-build process; all 9 167 schedules with <= 2 preemptions of all 55 unordered pairs of a 10-program subset (18 114 schedules actually interleave the two instruction streams; up to 36 scheduling points each); a 202 573-entry (program, outcome) table across the integer overflow boundaries and the arith slice that must be identical under the release-like and the debug-assertion/overflow-check build.",
+   note="trusted: yield-point and print-capture hooks (per-thread control block); scheduler granularity is one VM instruction: unsynchronised shared memory touched inside a single instruction is not interleaved (the crate has no statics/locks/atomics); solo outcomes come from the release build")
+CHECKS["C17"] = dict(level="model_checking", design="5/C17",
+   technique="explicit-state search over sessions on a real retained (Compiler, VM) pair: all sessions of <= 3 lines over a 52-line alphabet, breadth-first search with states merged on the fingerprint of compiler + VM + model environment, and crash-point enumeration (every line cut after every instruction count) with an effect-prefix oracle; every line compared with a session model built on the reference interpreter and, for all-success sessions, with eval of the concatenated text",
+   text="Quick tier: 143 364 sessions (all of <= 3 lines over 52 lines covering declarations, assignments, loops, self-contained functions, heap values, parse failures, compile failures at every statement position, run-time failures after k assignments and inside nested calls), 9 079 injected failures at every instruction of every line of every session of <= 2 lines followed by ten probe lines, and a 33 705-state BFS to depth 5 over a 14-line core alphabet. The shadow heap stays on across lines (a global referring to a released box is a violation).",
+   note="trusted: refint session model (Interp::line, effect_limit), fingerprint hooks; calls to functions defined by earlier lines are outside the property; results are not released by the harness in session mode")
+
 NOT_YET = {}
 props = [json.loads(l) for l in open("/verif/properties.jsonl")]
 checks = []
